@@ -96,10 +96,10 @@ TIES = {
  'C04': 'updateSnapshot, removeSnapshot, overwriteFile are transliterated with a failure oracle for every file-system call and proved equal to the model\'s update under IOFail.never, with closed decision trees for every failure (Tie/SnapshotIO); the update history theorem is restated about the transliterated flows (Tie/EndToEnd).',
  'C05': 'besides the mode gates, the flows, the file functions and Clean are transliterated: Tie/Flows proves for every failure oracle that a call whose gates are closed leaves St.fs unchanged; Tie/CleanTopIO proves Clean_ci_readonly and Clean_no_update_no_removal on the transliteration.',
  'C06': 'the lock kind of every file function is read from the source; the registries\' methods are transliterated (Tie/Registry), events.register / syncSlice.append are tied as source text (prims.json).',
- 'C07': 'occurrences, examineSnaps, examineFiles, isFileSkipped, Clean are transliterated and proved equal to the model (Tie/CleanIO, Tie/CleanTopIO1-3, CleanTopIO).',
+ 'C07': 'occurrences, examineSnaps, examineFiles, isFileSkipped, Clean are transliterated and proved equal to the model (Tie/CleanIO, Tie/CleanTopIO1-3, CleanTopIO); Tie/EndToEndClean composes them with the flow ties: for states REACHED by a history of the transliterated Match* flows (registries, counters and file as the flows left them, any mix of modes) every entry in an addressed slot survives the transliterated Clean with its body and is not listed obsolete (go_matched_survive_clean, go_addressed_survive_clean).',
  'C08': 'testSkipped, isFileSkipped, trackSkip and the exported Skip/Skipf/SkipNow wrappers are transliterated and tied (Tie/Skip, CleanTopIO1: the test is recorded before testing takes over).',
- 'C09': 'examineFiles, examineSnaps, Clean are transliterated; Tie/CleanTopIO proves on the transliteration that nothing is removed outside the deleting modes and that only reported paths are removed.',
- 'C10': 'examineSnaps (scan, rewrite, sort call) and getTestID are transliterated and proved equal to the model\'s exScan / rewrite (Tie/CleanIO, Tie/TestID).',
+ 'C09': 'examineFiles, examineSnaps, Clean are transliterated; Tie/CleanTopIO proves on the transliteration that nothing is removed outside the deleting modes and that only reported paths are removed; Tie/EndToEndClean lifts this to states reached by a history of the transliterated flows, for every failure oracle (go_no_update_no_removal), and shows that a sort-only Clean leaves a permutation of the entries (go_no_update_no_loss).',
+ 'C10': 'examineSnaps (scan, rewrite, sort call) and getTestID are transliterated and proved equal to the model\'s exScan / rewrite (Tie/CleanIO, Tie/TestID); Tie/EndToEndClean: after a history of the transliterated flows a second transliterated Clean leaves the file system exactly as the first left it (go_second_clean_changes_nothing; modes without deletion).',
  'C11': 'constructFilename, snapshotPath, baseCaller (the stack walk, for any sufficient fuel) and every option constructor / exported wrapper are transliterated and tied (Tie/Path, Tie/Caller, Tie/Wrappers).',
  'C12': 'the option constructors, WithConfig (a fold) and the wrappers are transliterated: Tie/Wrappers proves which Config each entry point uses; getPrettyJSONOptions builds a fresh options value (Tie/Pipeline).',
  'C13': 'the report functions of snaps/diff.go and internal/colors are transliterated and tied (Tie/Diff, Tie/DiffIO); internal/difflib itself is a hand-written Lean port with its own proofs and exhaustive correspondence.',
